@@ -346,11 +346,11 @@ Proof.
   intros HEnv. induction is as [|[n merge] rest IH]; intros base my.
   - rewrite !imports_go_nil. t_refl.
   - rewrite !imports_go_cons. apply t_imps_get. intros [i|].
-    + destruct (is_evaluating i); [apply t_add_err; apply IH|apply IH].
+    + destruct (is_evaluating i); [apply t_add_err; apply IH|destruct (is_value i); apply IH].
     + apply t_call; [apply HW|apply HW|]. apply t_emit.
       pose proof (wt_envs HW n) as HL. unfold load_t in HL.
       destruct (alookup n (w_envs Wp)) as [[| |dp]|], (alookup n (w_envs We)) as [[| |de]|]; try contradiction;
-        try (apply t_add_err; apply IH).
+        try (apply t_add_err; apply t_imps_set; apply IH).
       t_bind_with (@eq chain); [now apply HEnv|]. intros v v' <-. apply t_imps_set. apply IH.
 Qed.
 
@@ -361,7 +361,7 @@ Theorem transp_env : forall f, T_env f.
 Proof.
   induction f as [|f IH]; intros root name dp de (HI & HK & HV).
   - rewrite !eval_env_O. apply t_oof.
-  - rewrite !eval_env_S. cbv zeta. set (root' := if String.eqb root "" then name else root).
+  - rewrite !eval_env_S. cbv zeta. set (root' := if String.eqb root "" || String.eqb root "<yaml>" then name else root).
     apply t_imps_set. rewrite <- HI.
     t_bind_with (@eq (chain * list (string * chain))); [now apply t_imports_go|].
     intros [base my] r' <-. apply t_imps_set. rewrite (reserved_count_keys _ _ HK). apply t_add_err.
